@@ -19,6 +19,12 @@ CHECKS = {
         note="Trusted: pyvc, z3. Assumed: create_branch by contract (parent path + pending condition); the worklist/activation discipline of SEVM.run (every pushed state is later popped, activated and run) is NOT under contract, so this is per-unit coverage, not a whole-exploration theorem; hash range/injectivity and MAX_ETH are the documented modelling assumptions; assert/assume arms are proved in the C13 pack; arith axioms in the C06 pack.",
         technique="sigma-coverage VCs generated from the real source AST (pyvc) with the solver as a contract, z3",
     ),
+    "C07": dict(
+        text="Deductive, bounded in the number of chunks only: abstract view (length, byte at every offset, zero beyond the end). The real bodies of ByteVec.get_byte, slice, set_byte, set_slice, append, set_word, copy (with _load_chunk, the Chunk slicing helpers and ConcreteChunk/SymbolicChunk methods they call) are executed from the AST on symbolic layouts of 0..3 chunks whose lengths, window positions, offsets and contents are symbolic (ghost sorted container with symbolic keys, ghost byte strings), so every relative position of offsets and chunk boundaries is a path; pointwise obligations in one arbitrary offset prove the flat-array semantics (read = view, slice = window with zero extension and untouched original, writes change exactly [start,stop) with zero backfill, append, big-endian word), well-formedness of the representation after every operation, that every stored element is an immutable Chunk (syntactic immutability frame on the Chunk classes), copy independence in both directions, and the memory-limit guard of State.mslice/set_mslice.",
+        ref="DESIGN.md 4/C07 and 13",
+        note="Trusted: pyvc incl. the ghost SymSortedDict (contract of sortedcontainers.SortedDict), z3. BOUNDED in chunk count (target <= 3 chunks, ByteVec values 2 chunks); unwrap/get_word/concretize and longer layouts are covered only by the bounded differential stand-in (random operation sequences against a bytearray), which is not counted as proved.",
+        technique="abstract-view contracts proved by executing the real AST on symbolic chunk layouts (ghost containers with symbolic keys), quantifier-free LIA+UF VCs in one arbitrary offset, z3; bounded differential stand-in",
+    ),
     "C08": dict(
         text="Deductive, relative to an abstract decode: the real init/load/store bodies of SolidityStorage and GenericStorage are executed from the AST on a real Exec (real Path, real Exec.select) and, for write/read scripts over symbolic keys and values, the value read is proved under the path's own conditions (array definitions, per-index emptiness axioms) to be the most recent write to an equal key of the same structure, else the initial value (zero; unconstrained in symbolic-storage mode); structures that differ in slot, number of keys or key width never influence each other; nested mappings distinguish key order; simple_hash is injective. SEVM.sload/sstore use the configured layout on the right (transient/persistent) map and record the access; run_message gives every transaction a fresh empty transient map per account and a private copy of storage; OffsetMap with symbolic 256-bit keys (hit iff same bucket, delta exact) and KeccakRegistry (hash value + offset recovered as expr + offset); all 770 precomputed keccak entries are checked against real keccak256 and against the registry (ground).",
         ref="DESIGN.md 4/C08 and 12",
